@@ -11,6 +11,7 @@ import Autd3.Drv.C12
 import Autd3.Drv.C15
 import Autd3.Drv.C10
 import Autd3.Drv.C16
+import Autd3.Drv.C20
 /-! `autd3model <stream>`: one request line in, one answer line out. -/
 
 partial def loop {σ : Type} (h : IO.FS.Stream) (out : IO.FS.Stream) (step : σ → String → σ × String) (s : σ) : IO Unit := do
@@ -37,6 +38,7 @@ def main (args : List String) : IO UInt32 := do
   | ["holo"] => loop stdin stdout Autd3.Drv.C15.step Autd3.Drv.C15.init; return 0
   | ["parallel"] => loop stdin stdout Autd3.Drv.C10.step Autd3.Drv.C10.init; return 0
   | ["modgen"] => loop stdin stdout Autd3.Drv.C16.step Autd3.Drv.C16.init; return 0
+  | ["lw"] => loop stdin stdout Autd3.Drv.C20.step Autd3.Drv.C20.init; return 0
   | [s] =>
     if s.startsWith "fw_" then do loop stdin stdout Autd3.Drv.FwS.step Autd3.Drv.FwS.init; return 0
     else do IO.eprintln "unknown stream"; return 2
